@@ -18,6 +18,12 @@ obtained through `add_edge` -/
 example : GoodGraph exG ∧ SimpleG.ofEdges 6 [(1, 2), (2, 3), (1, 3), (4, 5)] = .ok exG :=
   ⟨exG_good, exG_reachable⟩
 
+/-- `G.edges()` of a good graph: the pairs `u < v` with `v` adjacent to `u` (this is the edge
+relation used by `ProperColoring` and by the edge variables) -/
+theorem edges_spec (G : SimpleG) (hG : GoodGraph G) (u v : Nat) :
+    (u, v) ∈ G.edges ↔ u < v ∧ v ∈ G.nbrs u ∧ u ≤ G.n :=
+  mem_edges hG
+
 /-! ## Tseitin -/
 
 /-- T-C02.1a all literals are edge variables `1..|E|`; the variable count is the edge count -/
